@@ -118,6 +118,8 @@ func plainName(s string) string {
 	return b.String()
 }
 
+var stressConfig sync.Once
+
 func itoa3(i int) string {
 	s := ""
 	if i == 0 {
@@ -179,10 +181,12 @@ func init() {
 			l.items = append(l.items, items[i])
 		}
 		items[6].kids = l
-		savedCtx, savedFeeds := config.Parsed.Network.Context, config.Parsed.Feeds
-		config.Parsed.Network.Context = 2
-		config.Parsed.Feeds = map[string][]string{"main": {"http://dead.invalid/a"}}
-		defer func() { config.Parsed.Network.Context, config.Parsed.Feeds = savedCtx, savedFeeds }()
+		// the configuration is installed ONCE for all stress cases: goroutines a previous case left behind (loaders, hooks)
+		// still read it, and a harness write per case would be a data race of the harness's own making
+		stressConfig.Do(func() {
+			config.Parsed.Network.Context = 2
+			config.Parsed.Feeds = map[string][]string{"main": {"http://dead.invalid/a"}}
+		})
 		var mu sync.Mutex
 		unlocked, overlaps, inOutput, frames := 0, 0, 0, 0
 		var s *ui.State
@@ -205,7 +209,9 @@ func init() {
 		})
 		s.VerifOpen(items[6])
 		stop := make(chan struct{})
+		pollerDone := make(chan struct{})
 		go func() {
+			defer close(pollerDone)
 			w := 60
 			for {
 				select {
@@ -250,6 +256,11 @@ func init() {
 		}
 		time.Sleep(30 * time.Millisecond)
 		close(stop)
+		select { // the poller is joined before the case returns (unless the UI is wedged: then it is stuck inside SetWidthHeight)
+		case <-pollerDone:
+		case <-time.After(3 * time.Second):
+			stuck = 1
+		}
 		mu.Lock()
 		defer mu.Unlock()
 		return []int{unlocked, overlaps, stuck, frames}
